@@ -88,6 +88,10 @@ func TestC01_Exact(t *testing.T) {
 			}
 			g.Class("cand:" + c.kind)
 		}
+		// the slice the first Sign returned was kept uncopied while the key signed other messages and verified
+		if !bytes.Equal(sig, expected) {
+			g.Fatalf("the signature returned by Sign changed while the key object was used further: %x, was %x", []byte(sig), expected)
+		}
 		// identity public keys reject everything
 		for i, idk := range identityKeys(g, k) {
 			for _, c := range cands {
